@@ -131,6 +131,15 @@ def check_exact_conversion(ck, rule, prog, body_id, what):
     for fb in prog.family(b):
         for _, t in fb.calls():
             m = t.callee.method
+            if m in ("map", "map_err", "and_then", "ok", "ok_or", "ok_or_else") and re.search(r"std::(result::Result|option::Option)", t.callee.name or ""):
+                # combinators: what they apply must itself be an exact conversion (closures are members of the family and are
+                # examined like the body; function items are judged by their name)
+                for a in t.args[1:]:
+                    if a.kind == "const" and "fn" in a.const:
+                        fm = re.sub(r"::<.*$", "", a.const["fn"]).rsplit("::", 1)[-1]
+                        if fm not in EXACT_CONV_METHODS and not re.search(r"HpoError", a.const["fn"]):
+                            bad.append("applies `%s` (line %s)" % (a.const["fn"], t.line))
+                continue
             if m not in EXACT_CONV_METHODS:
                 bad.append("calls `%s` (line %s)" % (m, t.line))
         for _, st in fb.stmts():
